@@ -175,10 +175,20 @@ func isFlagStore(in ssa.Instruction) (ssa.Value, bool) {
 // Return after a failure-flag store. It returns a description of the first
 // offending exit otherwise.
 func (c *Ctx) loudFrom(start *ssa.BasicBlock, env *pathEnv, carried map[ssa.Value]bool) (ok bool, how string, offending string) {
+	return c.loudFromCut(start, env, carried, nil)
+}
+
+// loudFromCut is loudFrom with paths accepted as soon as cut says so (another
+// test of the same error takes over from there).
+func (c *Ctx) loudFromCut(start *ssa.BasicBlock, env *pathEnv, carried map[ssa.Value]bool, cut func(in ssa.Instruction) bool) (ok bool, how string, offending string) {
 	ok = true
 	kinds := map[string]bool{}
 	c.explore(start, 0, env, exploreCB{
 		instr: func(in ssa.Instruction, e *pathEnv) bool {
+			if cut != nil && cut(in) {
+				kinds["tested again"] = true
+				return true
+			}
 			if v, isV := in.(ssa.Value); isV {
 				delete(e.facts, v) // re-executed: earlier facts about it are stale
 			}
@@ -299,8 +309,16 @@ func (c *Ctx) RuleErr() (drop, handle *Result) {
 		}
 		handled, how, worst := false, "", ""
 		tests := 0
-		// (1) nil tests with a loud non-nil side
+		// (1) every nil test of the error has a failing non-nil side. A path that reaches another
+		// nil test of the same error is that test's business.
 		{
+			testIfs := map[ssa.Instruction]bool{}
+			type tst struct {
+				a   ssa.Value
+				br  condBranch
+				tmn bool
+			}
+			var all []tst
 			for _, a := range aliases {
 				for _, r := range referrers(a) {
 					bin, ok := r.(*ssa.BinOp)
@@ -312,51 +330,108 @@ func (c *Ctx) RuleErr() (drop, handle *Result) {
 						continue
 					}
 					for _, br := range condBranches(bin) {
-						tests++
-						succ := 1
-						if !trueMeansNil != br.neg { // cond true <=> non-nil (after negations)
-							succ = 0
-						}
-						blk := br.iff.Block()
-						env := newEnvAt(blk)
-						env.facts[a] = nonNil
-						env.facts[s.errV] = nonNil
-						target := blk.Succs[succ]
-						env.enter(target, blk)
-						ok2, h, off := c.loudFrom(target, env, carried)
-						if ok2 {
-							handled, how = true, "non-nil side: "+h
-							break
-						}
-						// conjunctive guard: err != nil && <condition on the failed call's own input, or on the kind of the error>
-						if pureBlock(target) && conjunctAbout(target, s.call, aliases) {
-							if iff2, isIf := target.Instrs[len(target.Instrs)-1].(*ssa.If); isIf {
-								_ = iff2
-								for si, s2 := range target.Succs {
-									env2 := newEnvAt(blk)
-									env2.facts[a] = nonNil
-									env2.facts[s.errV] = nonNil
-									env2.enter(target, blk)
-									if !env2.branch(target, si) {
-										continue
-									}
-									env2.enter(s2, target)
-									if ok3, h3, _ := c.loudFrom(s2, env2, carried); ok3 {
-										handled, how = true, "conjunctive guard, failing side: "+h3
-									}
-								}
-							}
-						}
-						if !handled && worst == "" {
-							worst = off
-						}
-					}
-					if handled {
-						break
+						testIfs[br.iff] = true
+						all = append(all, tst{a, br, trueMeansNil})
 					}
 				}
-				if handled {
-					break
+			}
+			// errors.Is / errors.As on the error: it is non-nil on the true side, which must fail as well
+			for _, a := range aliases {
+				for _, r := range referrers(a) {
+					call, ok := r.(*ssa.Call)
+					if !ok || len(call.Call.Args) == 0 || call.Call.Args[0] != a {
+						continue
+					}
+					f := staticCallee(&call.Call)
+					if !(isFn(f, "errors", "Is") || isFn(f, "errors", "As")) {
+						continue
+					}
+					for _, br := range condBranches(call) {
+						testIfs[br.iff] = true
+						// "cond true <=> non-nil": modelled as a test whose true side is the non-nil side
+						all = append(all, tst{a, br, false})
+						// when the error is already known to be non-nil where it is classified, the
+						// other side is a failure of another kind and must fail as well
+						if domFacts(br.iff.Block())[a] == nonNil {
+							all = append(all, tst{a, condBranch{br.iff, !br.neg}, false})
+						}
+					}
+				}
+			}
+			tests = len(all)
+			okTests := 0
+			var hows []string
+			for _, t := range all {
+				succ := 1
+				if !t.tmn != t.br.neg { // cond true <=> non-nil (after negations)
+					succ = 0
+				}
+				blk := t.br.iff.Block()
+				target := blk.Succs[succ]
+				mkEnv := func() *pathEnv {
+					env := newEnvAt(blk)
+					env.facts[t.a] = nonNil
+					env.facts[s.errV] = nonNil
+					return env
+				}
+				cut := func(in ssa.Instruction) bool { return testIfs[in] }
+				env := mkEnv()
+				env.enter(target, blk)
+				ok2, h, off := c.loudFromCut(target, env, carried, cut)
+				if ok2 {
+					okTests++
+					hows = append(hows, h)
+					continue
+				}
+				// conjunctive guard about the failed call's own input: err != nil && len(input) > 0
+				okConj := false
+				if pureBlock(target) && conjunctAbout(target, s.call, aliases) && !conjunctOnError(target, aliases) {
+					for si, s2 := range target.Succs {
+						env2 := mkEnv()
+						env2.enter(target, blk)
+						if !env2.branch(target, si) {
+							continue
+						}
+						env2.enter(s2, target)
+						if ok3, h3, _ := c.loudFromCut(s2, env2, carried, cut); ok3 {
+							okConj = true
+							hows = append(hows, "conjunctive guard, failing side: "+h3)
+						}
+					}
+				}
+				if okConj {
+					okTests++
+					continue
+				}
+				if worst == "" {
+					worst = off
+				}
+			}
+			if tests > 0 && okTests == tests {
+				handled, how = true, "non-nil side: "+strings.Join(uniq(hows), "; ")
+				// and no way to a successful return that never looks at the error
+				if blk := s.call.Block(); blk != nil {
+					env := newEnvAt(blk)
+					unexamined := ""
+					c.explore(blk, instrIndex(s.call)+1, env, exploreCB{
+						instr: func(in ssa.Instruction, e *pathEnv) bool { return testIfs[in] },
+						ret: func(r *ssa.Return, e *pathEnv) {
+							op := retErrOperand(r)
+							if op != nil && (carried[op] || carried[e.resolve(op)]) {
+								return
+							}
+							if op != nil && e.nilnessOf(op) == nonNil {
+								return
+							}
+							if unexamined == "" {
+								unexamined = c.P.InstrPos(r)
+							}
+						},
+					})
+					if unexamined != "" {
+						handled = false
+						worst = "the function can return at " + unexamined + " before the error is looked at: when the call failed that path reports success"
+					}
 				}
 			}
 		}
@@ -887,6 +962,22 @@ func (c *Ctx) flagCounts(addr ssa.Value, store ssa.Instruction) bool {
 		return isFn(f, "errors", "Is") || isFn(f, "errors", "As")
 	}
 	return c.guardedByEdges(store, isErrKind)
+}
+
+// conjunctOnError: the branch condition of block b looks at the error itself (errors.Is/As):
+// the error is non-nil on both sides, so both must fail.
+func conjunctOnError(b *ssa.BasicBlock, aliases []ssa.Value) bool {
+	iff, ok := b.Instrs[len(b.Instrs)-1].(*ssa.If)
+	if !ok {
+		return false
+	}
+	cond, _ := unwrapNot(iff.Cond)
+	call, ok := cond.(*ssa.Call)
+	if !ok {
+		return false
+	}
+	f := staticCallee(&call.Call)
+	return isFn(f, "errors", "Is") || isFn(f, "errors", "As")
 }
 
 // conjunctAbout: the branch condition of block b only looks at arguments of
